@@ -105,12 +105,16 @@ def tagged_for(name, prop):
     return prop in name.rsplit('@', 1)[1].split(',')
 
 
-def mutate_source(path, old, new):
+def mutate_source(path, old, new=None):
+    """old/new strings, or a list of (old, new) pairs as `old`."""
     with open(path) as f:
         src = f.read()
-    if src.count(old) != 1:
-        return None
-    return src.replace(old, new)
+    edits = old if isinstance(old, (list, tuple)) else [(old, new)]
+    for o, n in edits:
+        if src.count(o) != 1:
+            return None
+        src = src.replace(o, n)
+    return src
 
 
 class Report:
@@ -172,7 +176,7 @@ def check_property(prop, tier='quick', seed=0):
     ctasks = []
     for ci, (modname, c) in enumerate(canaries):
         full = os.path.join(REPO, c['file'])
-        src = mutate_source(full, c['old'], c['new'])
+        src = mutate_source(full, c.get('edits') or c['old'], c.get('new'))
         c['_src'] = src
         if src is None:
             continue
